@@ -620,7 +620,11 @@ def rules(tier):
             # C02-ea: the re-cased tail built on a list shared across masks
             ('C02.R22', _shared_rule('c04', 'r3_mask_slices')),
             # C02-eb: print_guess returns without printing once a quit is requested
-            ('C02.R23', _shared_rule('c04', 'r12_output_point_total'))] + _loader_bundle() + []
+            ('C02.R23', _shared_rule('c04', 'r12_output_point_total')),
+            # C02-fa: skip_brute / skip_case reach load_grammar exchanged (positional call, reordered signature)
+            ('C02.R24', _shared_rule('c14', 'r13_options_forwarded')),
+            # C02-fb: file.seek(0) only when the pre-scan found an M line - a ruleset without M loads no base structure under --skip_brute
+            ('C02.R25', _shared_rule('c14', 'r1_rewind'))] + _loader_bundle() + []
 
 
 META = {
